@@ -14,8 +14,14 @@
 void create () { oid = "m"; }
 
 private object connect (int port) { return new ("/vuser.c"); }
+// variants (`cfg noroot` / `cfg nobb`): /c20/master_noroot.c, /c20/master_nobb.c, /c20/master_nobb_noroot.c define these
+// macros and include this file: set_master then finds no get_root_uid() (master keeps "NONAME" / 0) / no get_bb_uid()
+#ifndef C20_NO_ROOT
 string get_root_uid () { return "Root"; }
+#endif
+#ifndef C20_NO_BB
 string get_bb_uid () { return "Backbone"; }
+#endif
 int valid_read (string path, mixed who, string fn) { return 1; }
 int valid_write (string path, mixed who, string fn) { return 1; }
 string error_handler (mapping m, int caught) {
